@@ -42,9 +42,13 @@ CONSTANTS
 
 NoHash == 99            \* "no hash line"; not a content value
 
-\* the issuer relation is part of the state (s.par): the user can edit it
-Children(s, e) == {c \in Ents : s.par[c] = e}
+\* the issuer relation is part of the state (s.par): the user can edit it.  So is the set of entities that have a
+\* configuration file at all (s.present): the user can delete one and put it back; the artifact of an entity without
+\* configuration is just a file gopki has no business with.
+Children(s, e) == {c \in s.present : s.par[c] = e}
 IsLeaf(s, e)   == Children(s, e) = {}
+\* a configuration names an issuer that no configuration defines: Open refuses the directory (C18)
+Dangling(s)    == \E e \in s.present : s.par[e] # "" /\ s.par[e] \notin s.present
 
 \* hash / certc: content value of the entity's own configuration the stored hash / the certificate stands for;
 \* hashp / certp: the same for the profile part of the effective configuration (0 for entities without profile);
@@ -80,6 +84,7 @@ ArtOK(a) ==
 TypeOK(s) ==
   /\ s.cfgc \in [Ents -> Contents] /\ s.prof \in Contents
   /\ s.par \in [Ents -> Ents \cup {""}] /\ \A e \in Ents : s.par[e] # e
+  /\ s.present \subseteq Ents
   /\ s.cfgNewer \in [Ents -> BOOLEAN]
   /\ s.mt \in Seq(Ents) /\ Len(s.mt) = Cardinality({s.mt[i] : i \in DOMAIN s.mt})
   /\ {s.mt[i] : i \in DOMAIN s.mt} = {e \in Ents : s.art[e].exists}
@@ -132,15 +137,15 @@ AllowedFor(s, fl, e, issuerPlanned) ==
   ELSE AllowedDecision(FactsOf(s, e), fl, issuerPlanned)
 
 LegalSet(s, fl, S) ==
-  \A e \in Ents : (e \in S) \in AllowedFor(s, fl, e, s.par[e] # "" /\ s.par[e] \in S)
-PlanSets(s, fl) == {S \in SUBSET Ents : LegalSet(s, fl, S)}
+  \A e \in s.present : (e \in S) \in AllowedFor(s, fl, e, s.par[e] # "" /\ s.par[e] \in S)
+PlanSets(s, fl) == {S \in SUBSET s.present : LegalSet(s, fl, S)}
 
 \* the entities every legal plan contains (silent corners resolved to "no")
 RECURSIVE Must(_, _, _, _)
 Must(s, fl, e, fuel) ==
   IF fuel = 0 THEN FALSE
   ELSE Reasons(FactsOf(s, e), fl, s.par[e] # "" /\ Must(s, fl, s.par[e], fuel - 1)) # {}
-MustSet(s, fl) == {e \in Ents : Must(s, fl, e, Cardinality(Ents) + 1)}
+MustSet(s, fl) == {e \in s.present : Must(s, fl, e, Cardinality(Ents) + 1)}
 
 \* all orders of S in which every issuer precedes the entities it signs
 RECURSIVE TopoOrders(_, _)
@@ -194,38 +199,38 @@ NextEnt(s)   == s.plan[s.pos]
 (***************************************************************************)
 Apply(s, a) ==
   CASE a.name = "Edit" ->          \* the user changes the content of e's configuration
-         IF s.pc = "idle" /\ a.c # s.cfgc[a.e]
+         IF a.e \in s.present /\ s.pc = "idle" /\ a.c # s.cfgc[a.e]
          THEN {[s EXCEPT !.cfgc[a.e] = a.c, !.cfgNewer[a.e] = s.art[a.e].exists, !.last = "env", !.flags = {}]}
          ELSE {}
     [] a.name = "Touch" ->         \* config file rewritten with the same content
-         IF s.pc = "idle" THEN {[s EXCEPT !.cfgNewer[a.e] = s.art[a.e].exists, !.last = "env", !.flags = {}]} ELSE {}
+         IF a.e \in s.present /\ s.pc = "idle" THEN {[s EXCEPT !.cfgNewer[a.e] = s.art[a.e].exists, !.last = "env", !.flags = {}]} ELSE {}
     [] a.name = "DeleteArt" ->
-         IF s.pc = "idle" /\ s.art[a.e].exists THEN {[RemoveArt(s, a.e) EXCEPT !.last = "env", !.flags = {}]} ELSE {}
+         IF a.e \in s.present /\ s.pc = "idle" /\ s.art[a.e].exists THEN {[RemoveArt(s, a.e) EXCEPT !.last = "env", !.flags = {}]} ELSE {}
     [] a.name = "Truncate" ->      \* the user (or a crash of another tool) cuts the file
-         IF s.pc = "idle" /\ s.art[a.e].exists
+         IF a.e \in s.present /\ s.pc = "idle" /\ s.art[a.e].exists
          THEN {[PutArt(s, a.e, Prefix(s.art[a.e], a.cut), FALSE) EXCEPT !.last = "env", !.flags = {}]}
          ELSE {}
     [] a.name = "StripKey" ->      \* the PRIVATE KEY block is removed from the file
-         IF s.pc = "idle" /\ s.art[a.e].key = "key"
+         IF a.e \in s.present /\ s.pc = "idle" /\ s.art[a.e].key = "key"
          THEN {[PutArt(s, a.e, [s.art[a.e] EXCEPT !.key = "none"], FALSE) EXCEPT !.last = "env", !.flags = {}]}
          ELSE {}
     [] a.name = "Replace" ->       \* user-supplied self-signed certificate + key, no hash line,
                                    \* made for the current configuration
-         IF s.pc = "idle"
+         IF a.e \in s.present /\ s.pc = "idle"
          THEN {[PutArt(s, a.e, [exists |-> TRUE, hash |-> NoHash, hashp |-> 0, hashi |-> "", cert |-> TRUE, certc |-> s.cfgc[a.e],
                                  certp |-> ProfOf(s, a.e), iss |-> "", issc |-> s.cfgc[a.e], key |-> "key",
                                  sigok |-> TRUE, expired |-> FALSE], TRUE)
                 EXCEPT !.last = "env", !.flags = {}]}
          ELSE {}
     [] a.name = "MakeCsr" ->       \* the file is replaced by a certificate request (leaf entities)
-         IF s.pc = "idle" /\ IsLeaf(s, a.e) /\ s.par[a.e] # ""
+         IF a.e \in s.present /\ s.pc = "idle" /\ IsLeaf(s, a.e) /\ s.par[a.e] # ""
          THEN {[PutArt(s, a.e, [Absent EXCEPT !.exists = TRUE, !.key = "csr"], TRUE) EXCEPT !.last = "env", !.flags = {}]}
          ELSE {}
     [] a.name = "EditProfile" ->   \* the user changes the content of the shared profile
          IF s.pc = "idle" /\ a.c # s.prof THEN {[s EXCEPT !.prof = a.c, !.last = "env", !.flags = {}]} ELSE {}
     [] a.name = "Expire" ->        \* time passes: the certificate of e (intact chain, issuer key at hand) is now expired.
                                    \* No file is touched: the modification-time relations stay as they are.
-         IF s.pc = "idle" /\ s.art[a.e].cert /\ ~s.art[a.e].expired /\ s.art[a.e].sigok /\ s.art[a.e].key = "key"
+         IF a.e \in s.present /\ s.pc = "idle" /\ s.art[a.e].cert /\ ~s.art[a.e].expired /\ s.art[a.e].sigok /\ s.art[a.e].key = "key"
             /\ s.art[a.e].iss = s.par[a.e]
             /\ (IF s.par[a.e] = "" THEN s.art[a.e].issc = s.art[a.e].certc
                 ELSE s.art[s.par[a.e]].cert /\ s.art[s.par[a.e]].key = "key" /\ s.art[a.e].issc = s.art[s.par[a.e]].certc)
@@ -234,11 +239,23 @@ Apply(s, a) ==
     [] a.name = "SetIssuer" ->     \* the user writes another issuer (a.p, "" = none) into e's configuration.  No artifact is
                                    \* touched.  A request-only entity cannot become a root or an issuer (it has no private key
                                    \* to sign with): outside the model.
-         IF s.pc = "idle" /\ a.p \in AltParents[a.e] /\ a.p # s.par[a.e] /\ a.p # a.e
+         IF a.e \in s.present /\ s.pc = "idle" /\ a.p \in AltParents[a.e] /\ a.p # s.par[a.e] /\ a.p # a.e
             /\ (IF a.p = "" THEN s.art[a.e].key # "csr" ELSE s.art[a.p].key # "csr")
          THEN {[s EXCEPT !.par[a.e] = a.p, !.cfgNewer[a.e] = s.art[a.e].exists, !.last = "env", !.flags = {}]}
          ELSE {}
-    [] a.name = "StartRun" ->      \* Open + PlanBulkUpdate: a.plan is the plan (sequence of entities)
+    [] a.name = "RemoveConfig" ->  \* the user deletes e's configuration file; the artifact stays where it is
+         IF s.pc = "idle" /\ a.e \in s.present
+         THEN {[s EXCEPT !.present = @ \ {a.e}, !.cfgNewer[a.e] = FALSE, !.last = "env", !.flags = {}]}
+         ELSE {}
+    [] a.name = "AddConfig" ->     \* ... and puts it back (same content, same issuer): a new file, newer than the artifact
+         IF s.pc = "idle" /\ a.e \notin s.present
+         THEN {[s EXCEPT !.present = @ \cup {a.e}, !.cfgNewer[a.e] = s.art[a.e].exists, !.last = "env", !.flags = {}]}
+         ELSE {}
+    [] a.name = "StartRun" /\ Dangling(s) ->     \* Open refuses the directory: a failed run, nothing written
+         IF s.pc = "idle" /\ a.fl \in FlagSets /\ a.plan = <<>>
+         THEN {[s EXCEPT !.flags = a.fl, !.last = "run-failed"]}
+         ELSE {}
+    [] a.name = "StartRun" /\ ~Dangling(s) ->    \* Open + PlanBulkUpdate: a.plan is the plan (sequence of entities)
          IF s.pc = "idle" /\ a.fl \in FlagSets
             /\ { a.plan[i] : i \in DOMAIN a.plan } \in PlanSets(s, a.fl)
             /\ a.plan \in TopoOrders(s, { a.plan[i] : i \in DOMAIN a.plan })
@@ -296,7 +313,7 @@ RunMacro(s, a) ==
 VARIABLES st, nenv      \* nenv counts environment actions (only when MaxEnv > 0)
 
 InitState ==
-  [ cfgc |-> [e \in Ents |-> 0], prof |-> 0, par |-> Parent, cfgNewer |-> [e \in Ents |-> FALSE], mt |-> <<>>,
+  [ cfgc |-> [e \in Ents |-> 0], prof |-> 0, par |-> Parent, present |-> Ents, cfgNewer |-> [e \in Ents |-> FALSE], mt |-> <<>>,
     art |-> [e \in Ents |-> Absent], pc |-> "idle", plan |-> <<>>, pos |-> 0, flags |-> {}, last |-> "none" ]
 
 Init == st = InitState /\ nenv = 0
@@ -315,9 +332,12 @@ ReplaceAct  == "Replace" \in EnvActs /\ \E e \in Ents : EnvStep([name |-> "Repla
 MakeCsrAct  == "MakeCsr" \in EnvActs /\ \E e \in Ents : EnvStep([name |-> "MakeCsr", e |-> e])
 EditProfileAct == "EditProfile" \in EnvActs /\ UsesProfile # {} /\ \E c \in Contents : EnvStep([name |-> "EditProfile", c |-> c])
 ExpireAct   == "Expire" \in EnvActs /\ \E e \in Ents : EnvStep([name |-> "Expire", e |-> e])
+RemoveConfigAct == "RemoveConfig" \in EnvActs /\ \E e \in Ents : EnvStep([name |-> "RemoveConfig", e |-> e])
+AddConfigAct == "AddConfig" \in EnvActs /\ \E e \in Ents : EnvStep([name |-> "AddConfig", e |-> e])
 SetIssuerAct == "SetIssuer" \in EnvActs /\ \E e \in Ents : \E p \in AltParents[e] : EnvStep([name |-> "SetIssuer", e |-> e, p |-> p])
-StartRunAct == \E fl \in FlagSets : \E S \in PlanSets(st, fl) : \E p \in TopoOrders(st, S) :
-                  Step([name |-> "StartRun", fl |-> fl, plan |-> p])
+StartRunAct == IF Dangling(st) THEN \E fl \in FlagSets : Step([name |-> "StartRun", fl |-> fl, plan |-> <<>>])
+               ELSE \E fl \in FlagSets : \E S \in PlanSets(st, fl) : \E p \in TopoOrders(st, S) :
+                       Step([name |-> "StartRun", fl |-> fl, plan |-> p])
 WriteOKAct  == Step([name |-> "WriteOK"])
 SignFailAct == "SignFail" \in FaultActs /\ Step([name |-> "SignFail"])
 WriteErrAct == "WriteErr" \in FaultActs /\ Step([name |-> "WriteErr"])
@@ -325,7 +345,7 @@ WriteTornAct == "WriteTorn" \in FaultActs /\ \E c \in CutClasses : Step([name |-
 DieAct      == "Die" \in FaultActs /\ Step([name |-> "Die"])
 
 Next ==
-  \/ EditAct \/ TouchAct \/ DeleteAct \/ TruncateAct \/ StripKeyAct \/ ReplaceAct \/ MakeCsrAct \/ EditProfileAct \/ ExpireAct \/ SetIssuerAct
+  \/ EditAct \/ TouchAct \/ DeleteAct \/ TruncateAct \/ StripKeyAct \/ ReplaceAct \/ MakeCsrAct \/ EditProfileAct \/ ExpireAct \/ SetIssuerAct \/ RemoveConfigAct \/ AddConfigAct
   \/ StartRunAct \/ WriteOKAct \/ SignFailAct \/ WriteErrAct \/ WriteTornAct \/ DieAct
 
 vars == <<st, nenv>>
@@ -346,7 +366,7 @@ ChainOK(s, e) ==
      ELSE s.art[s.par[e]].cert /\ a.issc = s.art[s.par[e]].certc
 
 Converged(s) ==
-  \A e \in Ents :
+  \A e \in s.present :
      /\ s.art[e].cert /\ s.art[e].key # "none"
      /\ s.art[e].hash # NoHash =>
            /\ HashCurrent(s, e)
@@ -359,7 +379,7 @@ ConvergedAfterDefault ==
 
 \* C10: right after a successful run without generate-all, nothing must be regenerated
 Idempotent ==
-  (st.pc = "idle" /\ st.last = "run-ok" /\ "a" \notin st.flags) => MustSet(st, st.flags) = {}
+  (st.pc = "idle" /\ st.last = "run-ok" /\ "a" \notin st.flags) => ~Dangling(st) /\ MustSet(st, st.flags) = {}
 
 \* C15 (and C12's "completes"): from every idle state a fault-free default run cannot get stuck:
 \* every entity it must write is signable when its turn comes.  Checked on the must-plan in any
@@ -370,13 +390,13 @@ RunsThrough(s, plan) ==
   ELSE /\ Signable(s, Head(plan))
        /\ RunsThrough(PutArt(s, Head(plan), NewArt(s, Head(plan)), s.art[Head(plan)].key = "none"), Tail(plan))
 DefaultRunCompletes ==
-  st.pc = "idle" => \A p \in TopoOrders(st, MustSet(st, DefaultFlags)) : RunsThrough(st, p)
+  (st.pc = "idle" /\ ~Dangling(st)) => \A p \in TopoOrders(st, MustSet(st, DefaultFlags)) : RunsThrough(st, p)
 
 \* C12: an artifact the user supplied without a hash line is not refreshed merely because its
 \* configuration differs: with the default flags it is planned only if its issuer is planned or newer
 NoRefreshWithoutHash ==
-  st.pc = "idle" =>
-    \A e \in Ents :
+  (st.pc = "idle" /\ ~Dangling(st)) =>
+    \A e \in st.present :
       LET a == st.art[e] IN
       (a.hash = NoHash /\ a.cert /\ a.key # "none" /\ e \in MustSet(st, DefaultFlags)) =>
          (st.par[e] # "" /\ (st.par[e] \in MustSet(st, DefaultFlags) \/ IssNewer(st, e)))
